@@ -72,6 +72,8 @@ class VariablesConfig(ImmutableBaseModel):
 
     @model_validator(mode="after")
     def _broadcast_and_transform(self, info: ValidationInfo) -> Self:
+        if self._is_validated():
+            return self
         self._mutable()
 
         lower_bounds = broadcast_1d_array(
